@@ -2,12 +2,16 @@ import RisorModel.Util
 import RisorModel.C04.Model
 import RisorModel.C04.FragCertOracle
 import RisorModel.C04.FunCertOracle
+import RisorModel.C04.CloCertOracle
+import RisorModel.C04.MultiVarOracle
 /-! Line-protocol front end of the C04 model.
   `stack <main|fn> <instruction text>` → `accept <max height> <n reachable>` | `reject <offset: reason>` | `error <decode problem>`
   `cert <main|fn> <instruction text>` → the accepted certificate itself (heights per slot)
   `fragcert <sexp> <globals> <instruction text>` → see FragCertOracle.lean (the certificate of the proved fragment on real bytecode)
   `funcert <sexp> <globals> <id=…;ins=… per code object, joined by |>` → see FunCertOracle.lean (the certificates of the proved
-      FUNCTION fragment on the real bytecode of every code object) -/
+      FUNCTION fragment on the real bytecode of every code object)
+  `multi …`, `multicode …` → see MultiVarOracle.lean (multi-variable statements `a, _, c := e`: the tail the model of
+      compileMultiVar emits against the real one, what the real instructions leave behind, whole code objects) -/
 namespace Risor.C04
 
 def handle : List String → String
@@ -36,7 +40,10 @@ def handle : List String → String
         else "reject\tcertificate refused by the verified checker"
   | "fragcert" :: rest => handleFragCert rest
   | "funcert" :: rest => handleFunCert rest
+  | "clocert" :: rest => handleCloCert rest
   | "funin" :: rest => handleFunIn rest
+  | "multi" :: rest => MV.handleMulti rest
+  | "multicode" :: rest => MV.handleMultiCode rest
   | _ => "error\tunknown-request"
 
 end Risor.C04
